@@ -55,7 +55,9 @@ Qed.
 Definition a2c_mk (st tgt c x l : Z) : a2c_sys :=
   {| cs_st := {| Axi2ClkFSM_s_state := st; Axi2ClkFSM_s_target := tgt |}; cs_count := c; cs_clk := x; cs_load := l |}.
 
-Lemma a2c_step_idle_hs cw tgt c x l t : a2c_step cw (a2c_mk 0 tgt c x l) (true, t) = a2c_mk 1 t c x 0.
+(* a handshake in IDLE: the counter is kept (pinned commit, C16-F2) or cleared (repaired code); the probe says which *)
+Lemma a2c_step_idle_hs cw tgt c x l t :
+  a2c_step cw (a2c_mk 0 tgt c x l) (true, t) = a2c_mk 1 t (if a2c_clears_on_handshake then 0 else c) x 0.
 Proof. reflexivity. Qed.
 Lemma a2c_step_idle_nohs cw tgt c x l t : a2c_step cw (a2c_mk 0 tgt c x l) (false, t) = a2c_mk 0 tgt 0 0 0.
 Proof. reflexivity. Qed.
@@ -91,20 +93,26 @@ Proof.
     rewrite (IH (c + 1) 0 ins rest); try lia; try reflexivity; cbn in Hlen; lia.
 Qed.
 
-(* A handshake in IDLE (counter at 0) with target n >= 1 produces exactly n clk_out pulses, then load_outs for exactly
-   one cycle, then idle — whatever the inputs during those 2n+2 cycles (further handshakes are ignored) *)
-Lemma a2c_pulse_train cw (n : nat) ins : 0 <= cw -> (1 <= n)%nat -> Z.of_nat n < 2 ^ cw -> length ins = (2 * n + 2)%nat ->
-  a2c_trace cw (a2c_idle 0) ((true, Z.of_nat n) :: ins) = a2c_expected n.
+(* A handshake in IDLE with target n >= 1 produces exactly n clk_out pulses, then load_outs for exactly one cycle, then idle —
+   whatever the inputs during those 2n+2 cycles (further handshakes are ignored) — provided the run starts from a cleared
+   counter: either the counter is 0, or the FSM clears it at the handshake (repaired code) *)
+Lemma a2c_pulse_train_gen cw (n : nat) c ins :
+  a2c_clears_on_handshake = true \/ c = 0 ->
+  0 <= cw -> (1 <= n)%nat -> Z.of_nat n < 2 ^ cw -> length ins = (2 * n + 2)%nat ->
+  a2c_trace cw (a2c_idle c) ((true, Z.of_nat n) :: ins) = a2c_expected n.
 Proof.
-  intros Hcw Hn Hlt Hlen.
+  intros Hclr Hcw Hn Hlt Hlen.
   assert (Hs : exists body e1 e2, ins = body ++ [e1; e2] /\ length body = (2 * n)%nat).
   { exists (firstn (2 * n) ins). pose proof (firstn_skipn (2 * n) ins) as Hfs.
     assert (Hl : length (skipn (2 * n) ins) = 2%nat) by (rewrite skipn_length; lia).
     destruct (skipn (2 * n) ins) as [|e1 [|e2 [|? ?]]]; cbn in Hl; try lia.
     exists e1, e2. split; [symmetry; exact Hfs|]. rewrite firstn_length. lia. }
   destruct Hs as (body & e1 & e2 & -> & Hb).
-  unfold a2c_expected. cbn [a2c_trace]. change (a2c_idle 0) with (a2c_mk 0 0 0 0 0).
-  rewrite a2c_step_idle_hs. cbn [a2c_mk cs_clk cs_load]. f_equal.
+  unfold a2c_expected. cbn [a2c_trace]. change (a2c_idle c) with (a2c_mk 0 0 c 0 0).
+  rewrite a2c_step_idle_hs.
+  replace (if a2c_clears_on_handshake then 0 else c) with 0
+    by (destruct Hclr as [H | H]; [rewrite H | subst c; destruct a2c_clears_on_handshake]; reflexivity).
+  cbn [a2c_mk cs_clk cs_load]. f_equal.
   change {| cs_st := {| Axi2ClkFSM_s_state := 1; Axi2ClkFSM_s_target := Z.of_nat n |}; cs_count := 0; cs_clk := 0; cs_load := 0 |}
     with (a2c_mk 1 (Z.of_nat n) 0 0 0).
   rewrite (a2c_pulses_from cw (Z.of_nat n) Hcw Hlt n 0 0 body [e1; e2]); try lia.
@@ -114,13 +122,29 @@ Proof.
   destruct e2 as [[] t]; [rewrite a2c_step_idle_hs | rewrite a2c_step_idle_nohs]; reflexivity.
 Qed.
 
-(* the counter is cleared only in an IDLE cycle WITHOUT a handshake: a handshake presented in the very first idle cycle
-   after a run starts from the stale count.  After a 2-pulse run, a back-to-back request for 1 pulse does not stop
-   after 1 pulse (here: 5 pulses in the next 10 cycles on an 8-bit counter; it only stops after wrapping). *)
-Lemma a2c_back_to_back_stale_count :
-  let first := (true, 2) :: repeat (false, 0) 5 in            (* handshake, 2 pulses, END *)
-  let second := (true, 1) :: repeat (false, 0) 10 in          (* handshake in the first IDLE cycle after END *)
-  a2c_trace 8 (a2c_idle 0) (first ++ [(false, 0)]) = a2c_expected 2 /\
-  skipn 7 (map fst (a2c_trace 8 (a2c_idle 0) (first ++ second))) = [1; 0; 1; 0; 1; 0; 1; 0; 1; 0] /\
-  Forall (fun p => snd p = 0) (skipn 6 (a2c_trace 8 (a2c_idle 0) (first ++ second))).
-Proof. vm_compute. repeat split. repeat constructor. Qed.
+Lemma a2c_pulse_train cw (n : nat) ins : 0 <= cw -> (1 <= n)%nat -> Z.of_nat n < 2 ^ cw -> length ins = (2 * n + 2)%nat ->
+  a2c_trace cw (a2c_idle 0) ((true, Z.of_nat n) :: ins) = a2c_expected n.
+Proof. intros. apply a2c_pulse_train_gen; auto. Qed.
+
+(* BACK-TO-BACK requests (a handshake in the first idle cycle after a run, counter still at the previous target).
+   Pinned commit (C16-F2): the counter is cleared only in an IDLE cycle WITHOUT a handshake, so the request starts from the
+   stale count and does not stop at its target (witness: after a 2-pulse run, a request for 1 pulse gives 5 pulses in the next
+   10 cycles on an 8-bit counter, and no load_outs).  Repaired code: the pulse train is exact from ANY counter value.
+   The statement is selected by the probe of the regenerated FSM; exactly one branch is the live one. *)
+Definition a2c_back_to_back_statement : Prop :=
+  if a2c_clears_on_handshake
+  then forall cw (n : nat) c ins, 0 <= cw -> (1 <= n)%nat -> Z.of_nat n < 2 ^ cw -> length ins = (2 * n + 2)%nat ->
+       a2c_trace cw (a2c_idle c) ((true, Z.of_nat n) :: ins) = a2c_expected n
+  else let first := (true, 2) :: repeat (false, 0) 5 in            (* handshake, 2 pulses, END *)
+       let second := (true, 1) :: repeat (false, 0) 10 in          (* handshake in the first IDLE cycle after END *)
+       a2c_trace 8 (a2c_idle 0) (first ++ [(false, 0)]) = a2c_expected 2 /\
+       skipn 7 (map fst (a2c_trace 8 (a2c_idle 0) (first ++ second))) = [1; 0; 1; 0; 1; 0; 1; 0; 1; 0] /\
+       Forall (fun p => snd p = 0) (skipn 6 (a2c_trace 8 (a2c_idle 0) (first ++ second))).
+
+Lemma a2c_back_to_back : a2c_back_to_back_statement.
+Proof.
+  unfold a2c_back_to_back_statement. destruct a2c_clears_on_handshake eqn:E.
+  - (* live branch on code that clears at the handshake; impossible (E computes to false = true) on the pinned code *)
+    first [ exfalso; vm_compute in E; discriminate E | intros; apply a2c_pulse_train_gen; auto ].
+  - first [ exfalso; vm_compute in E; discriminate E | vm_compute; repeat split; repeat constructor ].
+Qed.
